@@ -22,8 +22,10 @@ def spec(tier):
                 pipes=[pipe("single", prio=3, at=0, durs=[5], mems=["ma"]), pipe("single", prio=3, at="ta", durs=[5], mems=["mb"]),
                        pipe("single", prio=3, at="tb", durs=[4], mems=["ma"])])
     for (lo, hi) in ((10, 19), (20, 29), (30, 40)):
-        obs.append(CH(name=f"retry_contention_ram{lo}", harness="sched.prio_pool", sym=dict(ram=I(lo, hi), ma=I(1, 20), mb=I(1, 20), ta=I(0, 3), tb=I(0, 5)),
-                      fixed=dict(cfg=cfgr, cpus=40, da=1), timeout=1800))
+        for (tlo, thi) in ((0, 1), (2, 3), (4, 5)):
+            obs.append(CH(name=f"retry_contention_ram{lo}_tb{tlo}", harness="sched.prio_pool",
+                          sym=dict(ram=I(lo, hi), ma=I(1, 20), mb=I(1, 20), ta=I(0, 3), tb=I(tlo, thi)),
+                          fixed=dict(cfg=cfgr, cpus=40, da=1), timeout=1800))
     cfg = dict(algo="priority-pool", pools=2, multi=True, K=K,
                pipes=[pipe("chain3", prio=3, at=0, durs=[1, 1, 1], mems=[1, "ma", 1]), pipe("chain2", prio=1, at=1, durs=[1, 1], mems=["mb", 1])])
     tsym = dict(cpus=I(1, 44), ma=I(1, 12), mb=I(1, 12))
